@@ -49,7 +49,7 @@ class C02(Prop):
     id = 'C02'
     k2_mask = {('top', 'now'), ('top', 'next_active'), ('arr', 'dates'), ('arr', 'next_date'), ('server', 'next_end'), ('node', 'next_date'), ('node', 'next_inds'), ('ind', 'send'), ('ind', 'sst'), ('ind', 'arr'), ('ind', 'exit'), ('ind', 'blocked'), ('rec', 'arr'), ('rec', 'wait'), ('rec', 'sst'), ('rec', 'stime'), ('rec', 'send'), ('rec', 'blocked'), ('rec', 'exit'), ('rec', '*')}      # the slice of the engine state / records this property reads (DESIGN 7, table of slices)
     k2_frames = 40
-    k2_invs2 = {'clk2', 'clk2r', 'clk2p'}         # the stage-2 T2 invariants (Inv/AllRun2.invs2_b) this property answers for on real snapshots
+    k2_invs2 = {'clk2', 'clk2r', 'clk2p', 'clk2s'}         # the stage-2 T2 invariants (Inv/AllRun2.invs2_b) this property answers for on real snapshots
     k2_invs = {'clk'}          # the T2 invariants (Inv/AllRun.invs_b) this property answers for on real snapshots
     num = 2
     regions = {'quick': [('core', 70), ('block', 70), ('routers', 40), ('renege', 50), ('preempt', 50), ('sched', 40),
